@@ -493,6 +493,17 @@ func (m *Module) genSwap(w *engine.World, r *engine.Rand, actor int) *engine.TxP
 			a.Recipient = sdk.AccAddress([]byte(fmt.Sprintf("fresh-recipient-%06d", m.fresh))).String()
 		case 1:
 			a.Recipient = authtypes.NewModuleAddress(authtypes.FeeCollectorName).String()
+		case 2:
+			// the reserve account of a pool that is not on the route (a legal, if odd, gift)
+			var off []string
+			for _, d := range m.cfg.Denoms {
+				if p := m.pools[d]; p != nil && d != in && d != out {
+					off = append(off, p.Addr)
+				}
+			}
+			if len(off) > 0 {
+				a.Recipient = off[r.Intn(len(off))]
+			}
 		default:
 			a.Recipient = w.A(actor + 1 + r.Intn(len(w.Actors)-2)).Addr.String()
 		}
@@ -961,6 +972,11 @@ func (m *Module) checkSwap(w *engine.World, op *engine.Op, tx *engine.TxRecord, 
 		w.Hit("amm.swap_other_recipient")
 		if double {
 			w.Hit("amm.swap_double_hop_other_recipient")
+		}
+		for _, p := range m.pools {
+			if p.Addr == a.Recipient {
+				w.Hit("amm.swap_pool_recipient")
+			}
 		}
 	}
 	w.Hit("C02.swap_checks")
